@@ -104,12 +104,90 @@ func c01R1(p *Prog, r *Report) {
 	}
 }
 
+// callTranslator: for a helper called at `call`, rewrites what the helper's polynomials and access
+// paths say in terms of the caller: integer parameters are replaced by the caller's argument
+// polynomials, pointer/struct parameters that are the caller's own parameters are renamed.
+func callTranslator(fn *ssa.Function, call ssa.Instruction, cc *PolyCtx, ch *PolyCtx) (trPoly func(Poly) Poly, trPath func(string) string) {
+	args := CallOf(call).Args
+	rename := map[string]string{}
+	intArg := map[string]Poly{}
+	if len(args) == len(fn.Params) {
+		for k, prm := range fn.Params {
+			name := ch.rootName(prm)
+			if isIntLike(prm.Type()) {
+				intArg[name] = cc.Of(args[k])
+				continue
+			}
+			if cp, ok := args[k].(*ssa.Parameter); ok {
+				rename[name] = cc.rootName(cp)
+			}
+		}
+	}
+	trPath = func(path string) string {
+		for from, to := range rename {
+			if path == from {
+				return to
+			}
+			if strings.HasPrefix(path, from+".") {
+				return to + path[len(from):]
+			}
+		}
+		return path
+	}
+	trSym := func(sym string) string {
+		// len(<path>) and plain paths
+		if strings.HasPrefix(sym, "len(") && strings.HasSuffix(sym, ")") {
+			return "len(" + trPath(sym[4:len(sym)-1]) + ")"
+		}
+		return trPath(sym)
+	}
+	trPoly = func(q Poly) Poly {
+		out := Poly{}
+		for mono, co := range q {
+			term := polyConst(co)
+			if mono != "" {
+				for _, sym := range strings.Split(mono, "*") {
+					if a, ok := intArg[sym]; ok {
+						term = term.Mul(a)
+					} else {
+						term = term.Mul(polySym(trSym(sym)))
+					}
+				}
+			}
+			out = out.Add(term)
+		}
+		return out
+	}
+	return trPoly, trPath
+}
+
 func c01RecordSite(p *Prog, r *Report, fn *ssa.Function, f map[string]*ssa.Store) {
 	c := NewPolyCtx(fn)
 	site := FuncName(fn)
 	pos := p.InstrPos(f["data"])
 	// (a) fresh buffer
 	data := f["data"].Val
+	// the samples may be handed to a labelling helper: then the buffer and its filling are in the
+	// (single) caller, and what the helper says about the trigger sample is read in the caller's terms
+	hostFn, hc := fn, c
+	trPoly := func(q Poly) Poly { return q }
+	trPath := func(s string) string { return s }
+	if prm, isPrm := data.(*ssa.Parameter); isPrm && prm.Parent() == fn {
+		sites, complete := p.staticCallSites(fn)
+		if len(sites) != 1 || !complete {
+			r.Unk("C01.R1", site+" data is a private copy", pos, fmt.Sprintf("the sample slice is a parameter of a helper with %d call sites: not followed", len(sites)))
+			return
+		}
+		hostFn = sites[0].Parent()
+		hc = NewPolyCtx(hostFn)
+		for k, pp := range fn.Params {
+			if pp == prm {
+				data = CallOf(sites[0]).Args[k]
+			}
+		}
+		trPoly, trPath = callTranslator(fn, sites[0], hc, c)
+		pos = p.InstrPos(sites[0])
+	}
 	mk, fresh := data.(*ssa.MakeSlice)
 	if !fresh {
 		what := "not a fresh allocation"
@@ -124,11 +202,11 @@ func c01RecordSite(p *Prog, r *Report, fn *ssa.Function, f map[string]*ssa.Store
 		return
 	}
 	r.OK("C01.R1", site+" data is a private copy", pos, "make([]RawType, L)")
-	L := c.Of(mk.Len)
+	L := hc.Of(mk.Len)
 	// (b) the copy
 	var src *ssa.Slice
 	ncopies := 0
-	Instrs(fn, func(in ssa.Instruction) {
+	Instrs(hostFn, func(in ssa.Instruction) {
 		call, ok := in.(*ssa.Call)
 		if !ok {
 			return
@@ -151,14 +229,14 @@ func c01RecordSite(p *Prog, r *Report, fn *ssa.Function, f map[string]*ssa.Store
 		r.Unk("C01.R1", site+" copy window", pos, fmt.Sprintf("expected exactly one copy(data, stream[lo:hi]) filling the record, found %d", ncopies))
 		return
 	}
-	base, lo, hi := c.SliceBounds(src)
+	base, lo, hi := hc.SliceBounds(src)
 	basePathStr := ""
 	if ld, ok := base.(*ssa.UnOp); ok && ld.Op == token.MUL {
-		basePathStr, _ = c.accessPath(ld.X)
+		basePathStr, _ = hc.accessPath(ld.X)
 	}
 	recv := ""
-	if len(fn.Params) > 0 {
-		recv = fn.Params[0].Name()
+	if len(hostFn.Params) > 0 {
+		recv = hostFn.Params[0].Name()
 	}
 	r.Check(strings.HasPrefix(basePathStr, recv+".") && strings.HasSuffix(basePathStr, ".rawData"), "C01.R1", site+" copies from its own stream", p.InstrPos(src),
 		"source is "+basePathStr, "the record is not copied from the receiver's own stream buffer (source: "+basePathStr+")")
@@ -170,9 +248,9 @@ func c01RecordSite(p *Prog, r *Report, fn *ssa.Function, f map[string]*ssa.Store
 		r.Bad("C01.R1", site+" stamps presamples, frame and time", pos, "the record is built without a pre-trigger count, trigger frame or trigger time")
 		return
 	}
-	pre := c.Of(f["presamples"].Val)
+	pre := trPoly(c.Of(f["presamples"].Val))
 	T := pre.Add(lo) // the sample index that sits at position `presamples` of the record
-	tf := c.Of(f["trigFrame"].Val)
+	tf := trPoly(c.Of(f["trigFrame"].Val))
 	ffiSym, ok := symWithSuffix(tf, ".firstFrameIndex")
 	if !ok {
 		// the stream's first frame can cancel out of the stamp when the trigger index was itself
@@ -205,8 +283,9 @@ func c01RecordSite(p *Prog, r *Report, fn *ssa.Function, f map[string]*ssa.Store
 	if call, ok := tv.(*ssa.Call); ok && call.Call.StaticCallee() != nil && len(call.Call.Args) == 2 {
 		callee := call.Call.StaticCallee()
 		if c01IsTimeOf(callee) {
-			arg := c.Of(call.Call.Args[1])
+			arg := trPoly(c.Of(call.Call.Args[1]))
 			rp, _ := c.accessPath(call.Call.Args[0])
+			rp = trPath(rp)
 			if !arg.Equal(T) {
 				msg = fmt.Sprintf("TimeOf is asked for sample %s but the trigger sample is %s", arg, T)
 			} else if !strings.HasPrefix(rp, streamPrefix) {
@@ -216,7 +295,7 @@ func c01RecordSite(p *Prog, r *Report, fn *ssa.Function, f map[string]*ssa.Store
 			}
 		}
 	} else {
-		tp := c.Of(tv)
+		tp := trPoly(c.Of(tv))
 		want := polySym(streamPrefix + ".firstTime").Add(T.Mul(polySym(streamPrefix + ".framesPerSample")).Mul(polySym(streamPrefix + ".framePeriod")))
 		okt = tp.Equal(want)
 	}
@@ -231,6 +310,7 @@ func c01RecordSite(p *Prog, r *Report, fn *ssa.Function, f map[string]*ssa.Store
 		got := ""
 		if ld, ok := st.Val.(*ssa.UnOp); ok && ld.Op == token.MUL {
 			got, _ = c.accessPath(ld.X)
+			got = trPath(got)
 		}
 		r.Check(got == suffix, "C01.R1", site+" sets "+fld, p.InstrPos(st), fld+" <- "+got, fld+" is taken from "+got+", want "+suffix+" (the record would carry another channel's identity or interpretation)")
 	}
